@@ -15,6 +15,7 @@ import Golib.Proof.C07Utf16
 import Golib.Proof.C07Embedded
 import Golib.Proof.C07Shape
 import Golib.Proof.C07Multi
+import Golib.Proof.C07Fast
 
 namespace Golib.C07
 
@@ -27,6 +28,31 @@ theorem c07_cursor_eq_fun (c : Codec) (dst src : Bytes) (h : src.length ≤ dst.
     parseToString c.body src = .ok (parseFun c.dec src) := by
   obtain ⟨e, dst', hp, hl, -, ht⟩ := run_spec (body := c.body) h (c.bodySpec src _)
   exact ⟨⟨e, dst', hp, hl, ht⟩, parseToString_eq c.bodySpec src⟩
+
+/-- The linear-time evaluator that the oracle uses for the LARGE stream (inputs above 4 KB:
+`parseFast` with the O(1)-length-test decision functions `…DecQ`, Model/C07Fast.lean) computes
+exactly what the cursor model computes: `XxxParseToString(src)`, and for every `dst` at least
+as long as `src` the count `n` and the prefix `dst[:n]` returned by `XxxParse(dst, src)`. -/
+theorem c07_fast_eq_model (src : Bytes) :
+    parseToString octalBody src = .ok (parseFast octalDecQ src) ∧
+    parseToString hexBody src = .ok (parseFast hexDecQ src) ∧
+    parseToString unicodeBody src = .ok (parseFast unicodeDecQ src) ∧
+    parseToString utf16Body src = .ok (parseFast utf16DecQ src) ∧
+    ∀ (c : Codec) (dst : Bytes), src.length ≤ dst.length →
+      ∃ n dst', parse c.body dst src = .ok (n, dst') ∧ dst'.take n = parseFun c.dec src ∧
+        n = (parseFun c.dec src).length := by
+  refine ⟨?_, ?_, ?_, ?_, fun c dst h => ?_⟩
+  · rw [octalDecQ_eq, parseFast_eq]; exact parseToString_eq octal_bodySpec src
+  · rw [hexDecQ_eq, parseFast_eq]; exact parseToString_eq hex_bodySpec src
+  · rw [unicodeDecQ_eq, parseFast_eq]; exact parseToString_eq unicode_bodySpec src
+  · rw [utf16DecQ_eq, parseFast_eq]; exact parseToString_eq utf16_bodySpec src
+  · obtain ⟨e, dst', hp, hl, he, ht⟩ := run_spec (body := c.body) h (c.bodySpec src _)
+    refine ⟨e, dst', hp, ht, ?_⟩
+    rw [← ht, List.length_take]; omega
+
+/-- Non-vacuity: the fast evaluator on a pair followed by a truncated escape. -/
+example : parseFast utf16DecQ [92, 117, 68, 56, 51, 68, 92, 117, 68, 69, 48, 48, 92, 117, 48] =
+    [240, 159, 152, 128, 92, 117, 48] := by decide
 
 /-- No Parse function panics, for any input whatsoever (`[]byte` form with a destination at
 least as long as the source, and the `ToString` form). -/
